@@ -1,8 +1,9 @@
 """C14 - function signatures never miss a register parameter."""
 import os
+import re
 
 import core
-from core import Report
+from core import Report, ToolError
 from common import TRUSTED
 
 TRACE_SPEC = "trace/T_C14.tla"
@@ -14,9 +15,11 @@ MANIFEST = {
             "MustBeParam(f) to be a subset of the register parameters reported by the real compute_function_signatures (one direction only; "
             "extra parameters are never an alarm); bounded: at most 3 functions x 5 blocks.",
     "note": "Trusted: TLC + CommunityModules, Cfg.tla (validated against the real graph builder by C08), projections in harness/src/irenc.rs and "
-            "walkrun.rs (canary-checked).  Modelled deviations (documented in the code, each weakens the requirement): plain stores of a register "
-            "to a stack slot are not reads; calls that do not return are dead ends (reads by noreturn extern calls / on never-returning callee "
-            "paths are not demanded of the caller); sub-register expression parameters are not demanded.  Registers are identified by name.",
+            "walkrun.rs (canary-checked).  The requirement is MustBeParamFull (reads at every reached call, returning or not; callee's own set at "
+            "internal calls).  Registers missed only because the analysis treats non-returning calls as dead ends are classified by the spec "
+            "(noreturn-call-read / call-without-return-site / callee-nonreturning-path) and recorded in known_findings.json; any miss of "
+            "MustBeParamReturning is a violation.  Modelled deviations (documented in the code): plain stores of a register to a stack slot are "
+            "not reads; sub-register expression parameters are not demanded.  Registers are identified by name.",
     "technique": "TLA+ walker specification (reachability fixpoint over Cfg edges, one-directional soundness relation) + TLC trace validation",
     "design_ref": "DESIGN.md section 6, C14",
 }
@@ -53,13 +56,65 @@ def _mutate(evs):
     return None
 
 
+def _classified(rep, f, r):
+    """Turn TLC's verdicts on shard f into violations / known findings.  The trace specification prints
+    <<"BAD", index, class>>: class "violation"/"panic", or the reason classes for which every missing
+    register is demanded by the property but skipped by design of the analysis (recorded defects).  The
+    class is attached to the event as `miss_class` so that known_findings.json can key on it."""
+    rep.add_tlc(r)
+    if r.error:
+        raise ToolError("TLC error on %s:\n%s" % (f, r.error))
+    lines = core.read_lines(f) if (r.badlines or r.unconsumed) else None
+    for line in r.badlines:
+        m = re.search(r'<<"BAD", (\d+), "([^"]*)"', line)
+        if not m:
+            raise ToolError("unparsable BAD line: " + line)
+        idx, cls = int(m.group(1)), m.group(2)
+        run, k = core.run_of(lines, idx)
+        run[k]["miss_class"] = cls
+        rep.violation("trace event %d of %s rejected by T_C14.tla: %s" % (idx, os.path.basename(f), line), run, k, line)
+    if r.unconsumed and not r.bad:
+        idx = int(r.unconsumed[0])
+        run, k = core.run_of(lines, min(idx, len(lines)))
+        rep.violation("trace %s not accepted by T_C14.tla: first unmatched event %d" % (os.path.basename(f), idx), run, k, r.out[-3000:])
+    if not (r.bad or r.unconsumed or r.invariant) and not r.finished_ok:
+        raise ToolError("TLC did not finish cleanly on %s:\n%s" % (f, r.out[-3000:]))
+
+
+def _validate(rep, files, parallel):
+    jobs = [dict(module=TRACE_SPEC, cfg="T_C14.cfg", trace=f, workers=1, timeout=3600) for f in files]
+    for f, r in zip(files, core.tlc_many(jobs, parallel)):
+        _classified(rep, f, r)
+
+
+def replay(path, seed, tier):
+    """Re-execute the recorded inputs on the real code and re-validate; recorded defect classes are
+    reported as KNOWN-FINDING, anything else as VIOLATION."""
+    core.build_harness()
+    out = os.path.join(core.BUILD, "traces", "C14_replay")
+    p = core.sh([core.BIN, "replay", "C14", path, "--out", out], cwd=core.ROOT, check=False)
+    if p.returncode != 0:
+        raise ToolError("replay failed: " + p.stdout[-2000:])
+    f = os.path.join(out, "shard00.ndjson")
+    rep = Report("C14", seed, tier)
+    _classified(rep, f, core.tlc(TRACE_SPEC, cfg="T_C14.cfg", trace=f, workers=1))
+    for what, n in rep.known_hits.items():
+        print("KNOWN-FINDING: property=C14 %s (%d events)" % (what, n))
+    if rep.violations:
+        print("VIOLATION property=C14 replay=%s" % path)
+        return 1
+    if not rep.known_hits:
+        print("replay accepted: the recorded inputs no longer violate C14")
+    return 0
+
+
 def check(seed, tier):
     rep = Report("C14", seed, tier)
     core.build_harness()
     # mode M: the specification modules against hand-derived expectations on hand-written projects
     core.mc(rep, "mc/MC_Walk.tla", "MC_Walk.cfg", workers=1)
-    meta = core.gen("C14", seed, tier, shards=8)
-    core.validate_traces(rep, TRACE_SPEC, meta["files"], parallel=int(os.environ.get("VERIF_PAR", 4 if tier == "quick" else 8)), timeout=3600)
+    meta = core.gen("C14", seed, tier, shards=4 if tier == "quick" else 8)
+    _validate(rep, meta["files"], int(os.environ.get("VERIF_PAR", 4 if tier == "quick" else 8)))
     core.canary(rep, TRACE_SPEC, meta["files"][0], _mutate, n=60)
     rep.traces, rep.events = meta["cases"], meta["events"]
     return rep.finish("model_checking", {
